@@ -1,2 +1,460 @@
-(* Bookmarks: model definitions (stub, to be filled in). *)
-From Klog Require Import Base.Prelude.
+(* Bookmarks: klog/app/bookmark.go, the bookmark parts of context.go (ReadBookmarks, ManipulateBookmarks,
+   ReadInputs), retriever.go (FileRetriever) and cli/bookmarks.go. Definitions only.
+
+   State: the database file bookmarks.json as a byte string; an absent file and an empty file are the same
+   thing to klog (ReadBookmarks), so absent is modelled as the empty byte string.
+
+   The Go map[Name]Bookmark is represented canonically: an association list with strictly ascending names
+   (byte order, which is Go's < on strings). [set] is the map assignment, [remove] is delete, [all] is
+   All() (an explicit sort, as in the code; on the canonical representation it changes nothing, see
+   Proofs/Bookmarks.v all_sorted_id and all_perm).
+
+   What belongs to the operating system is NOT defined here; it is a variable of the section, and the
+   theorems about this file (Proofs/Bookmarks.v) carry exactly these hypotheses about it:
+     abs  : bytes -> bytes       filepath.Abs (filepath.Join p) in the process's working directory
+                                 (app.NewFile); hypotheses used:
+                                   abs_is_abs : is_abs (abs p) = true
+                                   abs_idem   : abs (abs p) = abs p            (an absolute clean path is a fixed point)
+                                   abs_utf8   : valid_utf8 p -> valid_utf8 (abs p)
+     fstat : bytes -> fstatus    what reading the file at an absolute path gives: missing / not a valid klog
+                                 file / valid (os.ReadFile + the parser); no hypothesis
+     dir_of, base_of             filepath.Dir, filepath.Base (bookmarks info --dir / --file); no hypothesis
+   filepath.IsAbs is modelled for Unix: the path starts with a slash.
+   A concrete Unix instance (lexical Clean / Join / Abs / Dir / Base) is given at the end for the executable
+   model; the correspondence suite compares it with the real functions.
+
+   Exit codes are klog's app.Code values: 1 general, 2 no input, 4 IO, 5 config, 6 no such bookmark, 8 parser errors. *)
+From Klog Require Import Base.Prelude Base.Utf8 Model.Json.
+Open Scope N_scope.
+
+(* ---------- names ---------- *)
+
+Fixpoint trim_left_at (s : bytes) : bytes :=
+  match s with
+  | c :: r => if c =? 64 then trim_left_at r else s
+  | [] => []
+  end.
+
+Definition default_name : bytes := b!"default".
+
+(* NewName: strings.TrimLeft(name, "@"), empty -> "default" *)
+Definition new_name (s : bytes) : bytes :=
+  match trim_left_at s with
+  | [] => default_name
+  | v => v
+  end.
+
+(* ValuePretty *)
+Definition name_pretty (n : bytes) : bytes := 64 :: n.
+
+(* IsValidBookmarkName: strings.HasPrefix(value, "@") *)
+Definition is_bookmark_arg (s : bytes) : bool :=
+  match s with c :: _ => c =? 64 | [] => false end.
+
+(* filepath.IsAbs on Unix *)
+Definition is_abs (p : bytes) : bool :=
+  match p with c :: _ => c =? 47 | [] => false end.
+
+(* ---------- the collection ---------- *)
+
+Definition coll := list (bytes * bytes).    (* name |-> absolute path of the target *)
+
+Fixpoint bytes_ltb (a b : bytes) : bool :=
+  match a, b with
+  | _, [] => false
+  | [], _ :: _ => true
+  | x :: a', y :: b' => (x <? y) || ((x =? y) && bytes_ltb a' b')
+  end.
+
+Fixpoint get (n : bytes) (c : coll) : option bytes :=
+  match c with
+  | [] => None
+  | (n', p) :: r => if bytes_eqb n n' then Some p else get n r
+  end.
+
+Definition has (n : bytes) (c : coll) : bool :=
+  match get n c with Some _ => true | None => false end.
+
+(* bc.bookmarks[name] = b *)
+Fixpoint set (n p : bytes) (c : coll) : coll :=
+  match c with
+  | [] => [(n, p)]
+  | (n', p') :: r =>
+    if bytes_ltb n n' then (n, p) :: c
+    else if bytes_eqb n n' then (n, p) :: r
+    else (n', p') :: set n p r
+  end.
+
+(* delete(bc.bookmarks, n) *)
+Fixpoint remove (n : bytes) (c : coll) : coll :=
+  match c with
+  | [] => []
+  | (n', p') :: r => if bytes_eqb n n' then r else (n', p') :: remove n r
+  end.
+
+(* All(): sort.Slice by name *)
+Fixpoint insert_sorted (e : bytes * bytes) (l : coll) : coll :=
+  match l with
+  | [] => [e]
+  | x :: r => if bytes_ltb (fst x) (fst e) then x :: insert_sorted e r else e :: l
+  end.
+Definition all (c : coll) : coll := fold_right insert_sorted [] c.
+
+(* ---------- serialisation (ToJson) ---------- *)
+
+Definition key_name : bytes := b!"name".
+Definition key_path : bytes := b!"path".
+
+Definition entry_json (e : bytes * bytes) : json :=
+  JObj [(key_name, JStr (fst e)); (key_path, JStr (snd e))].
+
+(* empty collection -> empty file; otherwise Encoder with SetIndent("", "  "), SetEscapeHTML(false) *)
+Definition to_json (c : coll) : bytes :=
+  match all c with
+  | [] => []
+  | l => encoder_output true (JArr (map entry_json l))
+  end.
+
+(* ---------- deserialisation (NewBookmarksCollectionFromJson) ---------- *)
+
+(* struct bookmarkJson { Name *string; Path *string }, None = nil *)
+Record raw_entry := { re_name : option bytes; re_path : option bytes }.
+
+Definition ascii_lower (c : N) : N := if (65 <=? c) && (c <=? 90) then c + 32 else c.
+(* encoding/json matches a key to a field exactly or under case folding; for the letters of
+   "name" and "path" Unicode simple folding adds nothing to ASCII case *)
+Definition key_is (field key : bytes) : bool := bytes_eqb (map ascii_lower key) field.
+
+(* json.Unmarshal of one object into the struct; None = UnmarshalTypeError *)
+Fixpoint decode_fields (l : list (bytes * json)) (e : raw_entry) : option raw_entry :=
+  match l with
+  | [] => Some e
+  | (k, v) :: r =>
+    if key_is key_name k then
+      match v with
+      | JStr s => decode_fields r {| re_name := Some s; re_path := re_path e |}
+      | JNull => decode_fields r {| re_name := None; re_path := re_path e |}
+      | _ => None
+      end
+    else if key_is key_path k then
+      match v with
+      | JStr s => decode_fields r {| re_name := re_name e; re_path := Some s |}
+      | JNull => decode_fields r {| re_name := re_name e; re_path := None |}
+      | _ => None
+      end
+    else decode_fields r e
+  end.
+
+Definition decode_entry (v : json) : option raw_entry :=
+  match v with
+  | JObj l => decode_fields l {| re_name := None; re_path := None |}
+  | JNull => Some {| re_name := None; re_path := None |}
+  | _ => None
+  end.
+
+Fixpoint decode_entries (l : list json) : option (list raw_entry) :=
+  match l with
+  | [] => Some []
+  | v :: r =>
+    match decode_entry v, decode_entries r with
+    | Some e, Some es => Some (e :: es)
+    | _, _ => None
+    end
+  end.
+
+Definition malformed_db {A} : outcome A := Err (EOther 5).
+
+Section OS.
+  Variable abs : bytes -> bytes.
+
+  Inductive fstatus := FMissing | FInvalid | FValid.
+  Variable fstat : bytes -> fstatus.
+  Variable dir_of : bytes -> bytes.
+  Variable base_of : bytes -> bytes.
+
+  (* app.NewFile: Abs, then NewFileOrPanic *)
+  Definition new_file (p : bytes) : outcome bytes :=
+    let a := abs p in
+    if is_abs a then Ok a else Crash CExplicitPanic.
+
+  Fixpoint load_entries (l : list raw_entry) (c : coll) : outcome coll :=
+    match l with
+    | [] => Ok c
+    | e :: r =>
+      match re_name e, re_path e with
+      | Some n, Some p =>
+        if is_abs p then
+          let* f := new_file p in load_entries r (set (new_name n) f c)
+        else malformed_db
+      | _, _ => malformed_db
+      end
+    end.
+
+  Definition from_json (s : bytes) : outcome coll :=
+    match s with
+    | [] => Ok []
+    | _ =>
+      match parse_json s with
+      | Ok JNull => Ok []
+      | Ok (JArr l) =>
+        match decode_entries l with
+        | Some es => load_entries es []
+        | None => malformed_db
+        end
+      | Ok _ => malformed_db
+      | Err _ => malformed_db
+      | Crash c => Crash c
+      end
+    end.
+
+  (* ---------- resolution of file arguments (FileRetriever.Retrieve, ReadInputs) ---------- *)
+
+  (* removeBlankEntries: strings.TrimLeft(f, " ") == "" *)
+  Definition is_blank_arg (a : bytes) : bool := forallb (fun c => c =? 32) a.
+
+  Definition resolve_arg (c : coll) (a : bytes) : option bytes :=
+    if is_bookmark_arg a then get (new_name a) c else Some a.
+
+  (* the loop over the arguments: files that could be read, and whether any error was collected *)
+  Fixpoint retrieve_each (c : coll) (args : list bytes) : outcome (list bytes * bool) :=
+    match args with
+    | [] => Ok ([], false)
+    | a :: r =>
+      match resolve_arg c a with
+      | None => let* (fs, _) := retrieve_each c r in Ok (fs, true)
+      | Some p =>
+        let* f := new_file p in
+        let* (fs, e) := retrieve_each c r in
+        match fstat f with
+        | FMissing => Ok (fs, true)
+        | _ => Ok (f :: fs, e)
+        end
+      end
+    end.
+
+  Definition retrieve (c : coll) (args : list bytes) : outcome (list bytes) :=
+    let args1 := filter (fun a => negb (is_blank_arg a)) args in
+    let args2 := match args1 with
+                 | [] => match get default_name c with Some p => [p] | None => [] end
+                 | _ => args1
+                 end in
+    let* (fs, e) := retrieve_each c args2 in
+    if e then Err (EOther 4) else Ok fs.
+
+  (* ReadInputs with nothing piped to stdin: the files whose records are evaluated *)
+  Definition read_inputs (file : bytes) (args : list bytes) : outcome (list bytes) :=
+    let* c := from_json file in
+    let* fs := retrieve c args in
+    match fs with
+    | [] => Err (EOther 2)
+    | _ => if forallb (fun f => match fstat f with FValid => true | _ => false end) fs
+           then Ok fs else Err (EOther 8)
+    end.
+
+  (* ---------- the commands: database file before -> (database file after, stdout), or exit code ---------- *)
+
+  Definition arrow : bytes := b!" -> ".
+  Definition line_of (e : bytes * bytes) : bytes := name_pretty (fst e) ++ arrow ++ snd e ++ [10].
+
+  Inductive info_kind := IPath | IDir | IFile.
+
+  Inductive op :=
+  | OpSet (path name : bytes) (force : bool)   (* bookmarks set [--force] PATH [NAME]; no NAME = empty NAME *)
+  | OpUnset (name : bytes)                     (* bookmarks unset NAME *)
+  | OpClear                                    (* bookmarks clear --yes *)
+  | OpList                                     (* bookmarks list *)
+  | OpInfo (name : bytes) (k : info_kind)      (* bookmarks info [--dir|--file] NAME *)
+  | OpResolve (args : list bytes).             (* any evaluating command's file arguments, e.g. klog total ARGS *)
+
+  Definition cmd_set (path name : bytes) (force : bool) (file : bytes) : outcome (bytes * bytes) :=
+    let* f := new_file path in
+    let* _ := (if force then Ok tt
+               else match read_inputs file [f] with
+                    | Ok _ => Ok tt
+                    | Err _ => Err (EOther 1)
+                    | Crash c => Crash c
+                    end) in
+    (* NewDefaultBookmark for an empty name, NewBookmark(name) otherwise: both are new_name *)
+    let n := match name with [] => new_name default_name | _ => new_name name end in
+    let* c := from_json file in
+    let existed := has n c in
+    Ok (to_json (set n f c),
+        (if existed then b!"Changed bookmark" else b!"Created new bookmark") ++ [58; 10] ++ line_of (n, f)).
+
+  Definition cmd_unset (name : bytes) (file : bytes) : outcome (bytes * bytes) :=
+    let n := new_name name in
+    let* c := from_json file in
+    if has n c then Ok (to_json (remove n c), b!"Removed bookmark " ++ name_pretty n ++ [10])
+    else Err (EOther 6).
+
+  Definition cmd_clear (file : bytes) : outcome (bytes * bytes) :=
+    let* c := from_json file in
+    Ok (to_json [], b!"Cleared all bookmarks" ++ [10]).
+
+  Definition cmd_list (file : bytes) : outcome (bytes * bytes) :=
+    let* c := from_json file in
+    match c with
+    | [] => Ok (file, b!"There are no bookmarks defined yet." ++ [10])
+    | _ => Ok (file, flat_map line_of (all c))
+    end.
+
+  Definition info_text (k : info_kind) (p : bytes) : bytes :=
+    match k with IPath => p | IDir => dir_of p | IFile => base_of p end.
+
+  Definition cmd_info (name : bytes) (k : info_kind) (file : bytes) : outcome (bytes * bytes) :=
+    let* c := from_json file in
+    match get (new_name name) c with
+    | Some p => Ok (file, info_text k p ++ [10])
+    | None => Err (EOther 6)
+    end.
+
+  (* stdout stands for the list of files the command then evaluates, each followed by a NUL byte
+     (which no path contains) *)
+  Definition cmd_resolve (args : list bytes) (file : bytes) : outcome (bytes * bytes) :=
+    let* fs := read_inputs file args in
+    Ok (file, flat_map (fun f => f ++ [0]) fs).
+
+  Definition run_op (o : op) (file : bytes) : outcome (bytes * bytes) :=
+    match o with
+    | OpSet p n f => cmd_set p n f file
+    | OpUnset n => cmd_unset n file
+    | OpClear => cmd_clear file
+    | OpList => cmd_list file
+    | OpInfo n k => cmd_info n k file
+    | OpResolve a => cmd_resolve a file
+    end.
+
+  (* what a command invocation shows: exit code and stdout (a failed command prints nothing and writes nothing) *)
+  Inductive reply := ROk (stdout : bytes) | RFail (e : error) | RPanic.
+
+  Definition step {S} (run : S -> outcome (S * bytes)) (st : S) : S * reply :=
+    match run st with
+    | Ok (st', out) => (st', ROk out)
+    | Err e => (st, RFail e)
+    | Crash _ => (st, RPanic)
+    end.
+
+  (* the state after every command of a history, with what the command showed *)
+  Fixpoint trace {S} (run : op -> S -> outcome (S * bytes)) (ops : list op) (st : S) : list (S * reply) :=
+    match ops with
+    | [] => []
+    | o :: r => let sr := step (run o) st in sr :: trace run r (fst sr)
+    end.
+
+  Definition run_history (ops : list op) (file : bytes) : list (bytes * reply) := trace run_op ops file.
+
+  (* ---------- the specification: the same commands on a plain map (no file, no JSON) ---------- *)
+
+  Definition spec_resolve (m : coll) (args : list bytes) : outcome (list bytes) :=
+    let* fs := retrieve m args in
+    match fs with
+    | [] => Err (EOther 2)
+    | _ => if forallb (fun f => match fstat f with FValid => true | _ => false end) fs
+           then Ok fs else Err (EOther 8)
+    end.
+
+  Definition spec_op (o : op) (m : coll) : outcome (coll * bytes) :=
+    match o with
+    | OpSet path name force =>
+      let f := abs path in
+      let n := new_name name in
+      if force || match fstat f with FValid => true | _ => false end then
+        Ok (set n f m,
+            (if has n m then b!"Changed bookmark" else b!"Created new bookmark") ++ [58; 10] ++ line_of (n, f))
+      else Err (EOther 1)
+    | OpUnset name =>
+      if has (new_name name) m
+      then Ok (remove (new_name name) m, b!"Removed bookmark " ++ name_pretty (new_name name) ++ [10])
+      else Err (EOther 6)
+    | OpClear => Ok ([], b!"Cleared all bookmarks" ++ [10])
+    | OpList =>
+      match m with
+      | [] => Ok (m, b!"There are no bookmarks defined yet." ++ [10])
+      | _ => Ok (m, flat_map line_of m)
+      end
+    | OpInfo name k =>
+      match get (new_name name) m with
+      | Some p => Ok (m, info_text k p ++ [10])
+      | None => Err (EOther 6)
+      end
+    | OpResolve args =>
+      let* fs := spec_resolve m args in Ok (m, flat_map (fun f => f ++ [0]) fs)
+    end.
+
+  Definition spec_history (ops : list op) (m : coll) : list (coll * reply) := trace spec_op ops m.
+End OS.
+
+(* ---------- argv ---------- *)
+
+(* kong hands every argument string to the command through json.Marshal / json.Unmarshal (mapper.go
+   jsonTranscode): an argument that is not valid UTF-8 reaches klog with each offending byte replaced by
+   U+FFFD; valid UTF-8 is unchanged (Proofs/Json.v kong_arg_valid). *)
+Definition kong_arg (s : bytes) : bytes :=
+  match decode_string (encode_string s) with
+  | Ok d => d
+  | _ => s
+  end.
+
+(* ---------- a concrete Unix instance of the OS functions (lexical; used by the executable model) ---------- *)
+
+Definition slash : N := 47.
+
+Fixpoint split_slash (s : bytes) (cur : bytes) : list bytes :=
+  match s with
+  | [] => [rev cur]
+  | x :: r => if x =? slash then rev cur :: split_slash r [] else split_slash r (x :: cur)
+  end.
+
+(* one step of filepath.Clean over the path elements, the cleaned elements kept in reverse *)
+Definition clean_step (rooted : bool) (stack : list bytes) (el : bytes) : list bytes :=
+  if match el with [] => true | [46] => true | _ => false end then stack
+  else if bytes_eqb el [46; 46] then
+    match stack with
+    | top :: rest => if bytes_eqb top [46; 46] then el :: stack else rest
+    | [] => if rooted then [] else [el]
+    end
+  else el :: stack.
+
+(* filepath.Clean *)
+Definition unix_clean (p : bytes) : bytes :=
+  match p with
+  | [] => [46]
+  | _ =>
+    let rooted := is_abs p in
+    let els := rev (fold_left (clean_step rooted) (split_slash p []) []) in
+    if rooted then slash :: join [slash] els
+    else match els with [] => [46] | _ => join [slash] els end
+  end.
+
+(* app.NewFile(p) in working directory cwd: filepath.Abs(filepath.Join(p)) *)
+Definition unix_abs (cwd p : bytes) : bytes :=
+  let q := match p with [] => [] | _ => unix_clean p end in
+  if is_abs q then unix_clean q
+  else match q with
+       | [] => unix_clean cwd
+       | _ => unix_clean (cwd ++ [slash] ++ q)
+       end.
+
+Fixpoint strip_trailing_slashes_rev (r : bytes) : bytes :=
+  match r with
+  | 47 :: r' => strip_trailing_slashes_rev r'
+  | _ => r
+  end.
+
+(* the text after the last slash, and the text up to and including it *)
+Definition last_element (p : bytes) : bytes := rev (fst (span (fun c => negb (c =? slash)) (rev p))).
+Definition upto_last_slash (p : bytes) : bytes := rev (snd (span (fun c => negb (c =? slash)) (rev p))).
+
+(* filepath.Dir *)
+Definition unix_dir (p : bytes) : bytes := unix_clean (upto_last_slash p).
+
+(* filepath.Base *)
+Definition unix_base (p : bytes) : bytes :=
+  match p with
+  | [] => [46]
+  | _ =>
+    match rev (strip_trailing_slashes_rev (rev p)) with
+    | [] => [slash]
+    | q => last_element q
+    end
+  end.
